@@ -169,6 +169,24 @@ impl BnfParams {
     }
 }
 
+/// T-wide: more than 20 terminals expected in one state: ten pairs of regexes that tie on the
+/// samples of the first (same priority, both regexes, equal length: grammar order decides),
+/// followed by keywords (most specific / sort key differs from the regexes before them).
+pub fn twide_pool() -> Vec<TermSpec> {
+    let mut v = vec![];
+    for (i, c) in "abcdefghij".chars().enumerate() {
+        let w = format!("{c}xy");
+        let w2 = format!("{c}z");
+        let d = format!("{c}1x");
+        v.push(TermSpec::regex(&format!("W{i}"), &format!("{c}[a-z]+"), &[w.as_str(), w2.as_str()]));
+        v.push(TermSpec::regex(&format!("I{i}"), &format!("{c}[a-z0-9]+"), &[d.as_str(), w.as_str()]));
+    }
+    for (n, k) in [("Ka", "axy"), ("Kb", "bz"), ("Kq", "q"), ("Kqq", "qq")] {
+        v.push(TermSpec::str(n, k));
+    }
+    v
+}
+
 #[derive(Clone, Debug)]
 struct RawAlt {
     syms: Vec<(bool, u16)>,
@@ -1049,7 +1067,16 @@ pub fn g_lang(p: LangParams) -> impl Strategy<Value = GrammarSpec> {
                         uses.push(u);
                     }
                     let allow_assoc = p.mixed_assoc || rule_meta.assoc.is_none();
-                    out_alts.push(AltSpec { syms: uses, meta: build_meta(ameta, p.meta, true, allow_assoc) });
+                    // redundant explicit EMPTY references (derived from spare bits of the raw
+                    // meta-data so that the strategy is unchanged)
+                    let mut empties: Vec<u8> = vec![];
+                    if p.sugar && (ameta.flags / 8) % 5 == 4 {
+                        empties.push(((ameta.kind as usize / 30) % (uses.len() + 1)) as u8);
+                        if (ameta.prio / 16) % 2 == 1 {
+                            empties.push(((ameta.assoc as usize / 16) % (uses.len() + 1)) as u8);
+                        }
+                    }
+                    out_alts.push(AltSpec { syms: uses, meta: build_meta(ameta, p.meta, true, allow_assoc), empties });
                 }
                 // productive base alternative (terminals and later rules only)
                 let later = nn - i - 1;
@@ -1060,7 +1087,7 @@ pub fn g_lang(p: LangParams) -> impl Strategy<Value = GrammarSpec> {
                         SymUse::plain(if k < nt { Sym::T(k) } else { Sym::N(i + 1 + (k - nt)) })
                     })
                     .collect();
-                out_alts.push(AltSpec { syms: b, meta: Meta::default() });
+                out_alts.push(AltSpec { syms: b, meta: Meta::default(), empties: vec![] });
                 // `A: A` is rejected by the compiler
                 out_alts.retain(|a| !(a.syms.len() == 1 && a.syms[0].sym == Sym::N(i) && a.syms[0].rep.is_none()));
                 // production kinds must be unique within a rule (they name enum variants)
@@ -1182,7 +1209,7 @@ pub fn build_ast(tape: &[u16]) -> GrammarSpec {
         }
         let kw = |k: usize| tinline(T_KW0 + (k % 8), k % 3 == 0);
         let mut alts: Vec<AltSpec> = vec![];
-        let mk = |syms: Vec<SymUse>| AltSpec { syms, meta: Meta::default() };
+        let mk = |syms: Vec<SymUse>| AltSpec { syms, meta: Meta::default(), empties: vec![] };
         match kind {
             0 => {
                 // enum of terminals, maybe with kinds
@@ -1363,12 +1390,13 @@ pub fn build_ast(tape: &[u16]) -> GrammarSpec {
         stmt_alts.push(AltSpec {
             syms: vec![tsym(T_KW0 + ((i + 3) % 8)), tsym(T_BANG), SymUse::plain(Sym::N(i)), tsym(T_SEMI)],
             meta: Meta::default(),
+            empties: vec![],
         });
     }
     rules[1].alts = stmt_alts;
     let mut s_use = SymUse::plain(Sym::N(1));
     s_use.rep = Some((if c.pick(2) == 0 { RepOp::Plus } else { RepOp::Star }, None));
-    rules[0].alts = vec![AltSpec { syms: vec![s_use], meta: Meta::default() }];
+    rules[0].alts = vec![AltSpec { syms: vec![s_use], meta: Meta::default(), empties: vec![] }];
     // two terminals with the same string recogniser (an inline use resolves to one of them; which
     // one must not depend on anything but the grammar text)
     let mut terms = terms;
@@ -1386,15 +1414,35 @@ pub fn build_ast(tape: &[u16]) -> GrammarSpec {
 pub fn build_rec(tape: &[u16]) -> GrammarSpec {
     let mut c = Cursor::new(tape);
     let terms = ast_terms();
-    let mk = |syms: Vec<SymUse>| AltSpec { syms, meta: Meta::default() };
+    let mk = |syms: Vec<SymUse>| AltSpec { syms, meta: Meta::default(), empties: vec![] };
     let lp = || tinline(T_LPAR, false);
     let rp = || tinline(T_RPAR, true);
     // body rules as (name, annotation, alternatives); indexes are fixed up below: body rule k
     // is rule 2 + k
     let n = |k: usize| SymUse::plain(Sym::N(2 + k));
     let mut body: Vec<(String, Option<String>, Vec<AltSpec>)> = vec![];
-    let shape = c.pick(7);
+    let shape = c.pick(9);
     match shape {
+        7 => {
+            // the same optional symbol before and after a mandatory one (the trailing one may
+            // be right-nulled while the leading one is on the stack), sugar or explicit rule
+            let mut o1 = SymUse::plain(Sym::T(T_NUM));
+            o1.rep = Some((RepOp::Opt, None));
+            let o2 = o1.clone();
+            let mut alts = vec![mk(vec![o1, tsym(T_ID), o2])];
+            if c.pick(2) == 0 {
+                let mut o3 = SymUse::plain(Sym::T(T_ID));
+                o3.rep = Some((RepOp::Opt, None));
+                let o4 = o3.clone();
+                alts.push(mk(vec![tinline(T_KW0, false), o3, tsym(T_NUM), tinline(T_COLON, false), o4]));
+            }
+            body.push(("Node".to_string(), None, alts));
+        }
+        8 => {
+            // the same optional non-terminal twice, last symbols nullable
+            body.push(("Node".to_string(), None, vec![mk(vec![n(1), tsym(T_ID), n(1)]), mk(vec![tinline(T_KW0 + 1, false), n(1), n(1)])]));
+            body.push(("Opt".to_string(), None, vec![mk(vec![tsym(T_NUM)]), mk(vec![])]));
+        }
         0..=2 => {
             // element <-> hand written @vec rule
             let elem_first = c.pick(2) == 0;
@@ -1526,11 +1574,74 @@ pub fn build_rec(tape: &[u16]) -> GrammarSpec {
         .map(|k| AltSpec {
             syms: vec![tsym(T_KW0 + 4 + k), tsym(T_BANG), SymUse::plain(Sym::N(2 + k)), tsym(T_SEMI)],
             meta: Meta::default(),
+            empties: vec![],
         })
         .collect();
     let mut s_use = SymUse::plain(Sym::N(1));
     s_use.rep = Some((if c.pick(2) == 0 { RepOp::Plus } else { RepOp::Star }, None));
-    rules[0].alts = vec![AltSpec { syms: vec![s_use], meta: Meta::default() }];
+    rules[0].alts = vec![AltSpec { syms: vec![s_use], meta: Meta::default(), empties: vec![] }];
+    GrammarSpec { terms, rules, layout: None }
+}
+
+/// G-rec with one more alternative on every `@vec` rule that does not fit the documented
+/// `A: A B | B` pattern (a keyword-only alternative or one with three references), before or
+/// after the pattern's alternatives. Only totality of the compiler is claimed for these (C16).
+pub fn build_rec_weird(tape: &[u16]) -> GrammarSpec {
+    let mut g = build_rec(tape);
+    let v = tape.last().copied().unwrap_or(0) as usize;
+    for r in g.rules.iter_mut().filter(|r| r.annotation.as_deref() == Some("vec")) {
+        let alt = if v % 2 == 0 {
+            AltSpec { syms: vec![tinline(T_KW0 + 7, false)], meta: Meta::default(), empties: vec![] }
+        } else {
+            AltSpec { syms: vec![tsym(T_NUM), tsym(T_ID), tsym(T_NUM)], meta: Meta::default(), empties: vec![] }
+        };
+        let at = match (v / 2) % 3 {
+            0 => 0,
+            1 => 1.min(r.alts.len()),
+            _ => r.alts.len(),
+        };
+        r.alts.insert(at, alt);
+    }
+    g
+}
+
+/// G-kw: grammars without any content (regex) terminal: enums of keywords, structs of such
+/// enums, optional and repeated keywords. Pure function of the tape.
+pub fn build_kw(tape: &[u16]) -> GrammarSpec {
+    let mut c = Cursor::new(tape);
+    let terms: Vec<TermSpec> = ast_terms().into_iter().filter(|t| !t.is_regex()).collect();
+    let mk = |syms: Vec<SymUse>| AltSpec { syms, meta: Meta::default(), empties: vec![] };
+    let kw = |k: usize, inline: bool| if inline { tinline(T_KW0 + (k % 8), k % 2 == 0) } else { tsym(T_KW0 + (k % 8)) };
+    let n = |k: usize| SymUse::plain(Sym::N(k));
+    // 0 S (start), 1 Decl (struct of the others), 2 Kind (enum), 3 Mode (enum / optional)
+    let inline = c.pick(2) == 0;
+    let mut decl = vec![n(2), n(3)];
+    if c.pick(2) == 0 {
+        decl.insert(1, tinline(T_COLON, false));
+    }
+    if c.pick(3) == 0 {
+        decl[0] = named(decl[0].clone(), "kind", false);
+    }
+    let mut mode = vec![mk(vec![kw(2, inline)]), mk(vec![kw(3, inline)])];
+    if c.pick(3) == 0 {
+        mode.push(mk(vec![]));
+    }
+    let mut kind = vec![mk(vec![kw(0, inline)]), mk(vec![kw(1, inline)])];
+    if c.pick(3) == 0 {
+        kind.push(mk(vec![kw(4, inline), n(3)]));
+    }
+    let mut s_use = n(1);
+    match c.pick(3) {
+        0 => s_use.rep = Some((RepOp::Plus, None)),
+        1 => s_use.rep = Some((RepOp::Star, Some(T_COMMA))),
+        _ => {}
+    }
+    let rules = vec![
+        RuleSpec { name: "S".into(), annotation: None, meta: Meta::default(), alts: vec![mk(vec![s_use, tsym(T_SEMI)])] },
+        RuleSpec { name: "Decl".into(), annotation: None, meta: Meta::default(), alts: vec![mk(decl)] },
+        RuleSpec { name: "Kind".into(), annotation: None, meta: Meta::default(), alts: kind },
+        RuleSpec { name: "Mode".into(), annotation: None, meta: Meta::default(), alts: mode },
+    ];
     GrammarSpec { terms, rules, layout: None }
 }
 
